@@ -143,7 +143,16 @@ def iteration_of(ex, it_e, st):
             return Iteration(n, lambda i: ex.dict_value(d, d.keys[i]))
         return Iteration(n, lambda i: V(vl.vtuple([d.keys[i], as_val(ex.dict_value(d, d.keys[i]))])))
     if isinstance(v, SSet):
-        raise Unsupported('for-loop over a set (iteration order is not a function of the value)')
+        # a set is visited in *some* order: an arbitrary sequence with exactly the set's elements, each once.
+        # What is proved holds for every such order (the invariants name it _order<k>).
+        order = fresh('order', SeqVal)
+        x = fresh('x', vl.Val)
+        ex.assume(z3.ForAll([x], z3.Contains(order, z3.Unit(x)) == v.mem(x)))
+        a, b = fresh('a', vl.Int), fresh('b', vl.Int)
+        ex.assume(z3.ForAll([a, b], z3.Implies(z3.And(0 <= a, a < b, b < z3.Length(order)), order[a] != order[b])))
+        it = Iteration(z3.Length(order), lambda i: V(order[i]), seq=order)
+        it.order_of_set = order
+        return it
     seq = seq_term(ex, v, st, 'iterable')
     return Iteration(z3.Length(seq), lambda i: V(seq[i]), seq=seq)
 
@@ -186,6 +195,8 @@ def run_for(ex, st):
     ord_, invs = loop_setup(ex, st, mods)
     it = iteration_of(ex, st.iter, st)
     n = it.n
+    if getattr(it, 'order_of_set', None) is not None:
+        ex.ghost['_order%d' % ord_] = V(VList(it.order_of_set))
     ex.assume(n >= 0)
     saved_ghost = dict(ex.ghost)
     outer_loop = getattr(ex, 'cur_loop', None)
@@ -245,7 +256,12 @@ def run_for(ex, st):
         ex.iter_envs[ord_] = dict(ex.env)
         ex.bind_target(st.target, it.elem(i), st)
         from . import mutate
-        mutate.record_roots(ex, st.target, st.iter)
+        if getattr(it, 'order_of_set', None) is not None:
+            # elements of a set are hashable, hence immutable: they alias nothing that can be mutated
+            for nm_ in [x.id for x in ast.walk(st.target) if isinstance(x, ast.Name)]:
+                ex.roots[nm_] = set()
+        else:
+            mutate.record_roots(ex, st.target, st.iter)
         for nm_ in [x.id for x in ast.walk(st.target) if isinstance(x, ast.Name)]:
             ex.fresh_outer[nm_] = False
         ex.in_loop_body += 1
